@@ -98,6 +98,27 @@ def main():
         cppgen.generate(other, po, so, {}, scratch, "other", rng=None)
         g2 = cppgen.generate(d, process, sensor, cal, scratch, "det", rng=None, container=container)
         out["regen_same"] = (open(g2["header"]).read() == h and open(g2["source"]).read() == s)
+        # ONE model object used for C++ generation, then for a Python filter, then for C++ generation again: the three generators
+        # are readers of the definition, none may leave it changed
+        shared_m = fk.ui_model(d, None, container)
+        ga = cppgen.generate(d, process, sensor, cal, scratch, "shr", rng=None, container=container, model_obj=shared_m)
+        ha, sa = open(ga["header"]).read(), open(ga["source"]).read()
+        with contextlib.redirect_stdout(io.StringIO()):
+            eh.compile_ekf(d, process, sensor, cal, None, container=container, model_obj=shared_m)
+        gb = cppgen.generate(d, process, sensor, cal, scratch, "shr", rng=None, container=container, model_obj=shared_m)
+        out["regen_after_python_filter_same"] = (open(gb["header"]).read() == ha and open(gb["source"]).read() == sa)
+        # the scikit-learn adapter's view of the same definition: column layout of the data matrix and of the result
+        try:
+            import numpy as _np2
+            from props import C16 as _C16
+            with contextlib.redirect_stdout(io.StringIO()):
+                ad = _C16.make_adapter(d, process, sensor, cal, None)
+                width = len(d.control) + sum(len(rd) for rd in d.sensors.values())
+                X = _np2.array([[((7 * r + 3 * c) % 11) / 8.0 - 0.5 for c in range(width)] for r in range(3)], dtype=float)
+                T = _np2.asarray(ad.transform(X), dtype=float)
+            out["adapter_transform"] = hashlib.sha256(_np2.round(T, 9).tobytes()).hexdigest() if _np2.all(_np2.isfinite(T)) else "non-finite"
+        except Exception as e:  # noqa: BLE001
+            out["adapter_transform"] = "raises:" + type(e).__name__
         out["header_sha"] = hashlib.sha256(h.encode()).hexdigest()
         out["source_sha"] = hashlib.sha256(s.encode()).hexdigest()
         from formak import python
@@ -111,6 +132,14 @@ def main():
             "options_fields": re.findall(r"struct StateOptions\s*\{([^}]*)\}", h)[0].split(),
             "sensor_ids": re.findall(r"enum class SensorId \{([^}]*)\}", h)[0].split(),
         }
+        # the definition exactly as declared in THIS run (permuted orders), and what the compiled Python filter holds, for the
+        # Lean model of the emitted artifact
+        if eh.is_rational(d):
+            out["declared"] = eh.ekf_json(d, process, sensor)
+        import numpy as _np
+        out["py_process_noise_diag"] = [repr(float(x)) for x in _np.diag(_np.asarray(ekf.process_noise, dtype=float))] if len(d.control) else []
+        out["py_process_noise_offdiag_zero"] = bool(_np.count_nonzero(_np.asarray(ekf.process_noise) - _np.diag(_np.diag(_np.asarray(ekf.process_noise)))) == 0) if len(d.control) else True
+        out["py_sensor_noise_diag"] = {k2: [repr(float(x)) for x in _np.diag(_np.asarray(getattr(v2, "data", v2), dtype=float))] for k2, v2 in sorted(ekf.sensor_noises.items())}
         out["names"] = {"state": sorted(x.name for x in d.state), "control": sorted(x.name for x in d.control),
                         "calibration": sorted(x.name for x in d.calibration), "sensors": sorted(d.sensors)}
     finally:
